@@ -8,12 +8,15 @@ from common import cstr, cnat, cbool, clist, ctuple, cexn, log, run_coqc
 TRUSTED_BASE = [
     'the nested defaultdict is modelled by a nested association list with dict semantics; str <= by String order (bytewise UTF-8 = code point order)',
     'values travel as float.hex() tokens; `sim < 0.` is modelled on the token (leading "-" and not -0.0)',
-    'PARTIAL: the CSV row codec (csv quoting, repr/float() of binary64, gzip) is runtime-library behaviour: its round trip is established by running it '
-    '(write, read back, compare by float.hex()), not by a theorem; the metadata codec and header framing ARE modelled and proved',
+    'the CSV row codec (csv.writer QUOTE_MINIMAL, the csv.reader state machine incl. records that span lines), the FILE layout (comment lines, column names, rows), '
+    'the store_header filter, DictReader (field names, skipped empty records, short rows) and _parse_meta ARE modelled; the file round trip and the end-to-end container round trip are theorems '
+    '(C15_csv_file_roundtrip, C15_rebuild, C15_container_csv_roundtrip)',
+    'PARTIAL: repr / float() of binary64 and gzip are runtime-library behaviour: an oracle pair with the law float(repr(v)) = v (hypothesis of the theorem); the correspondence passes a '
+    'per-file table cell text -> (float() accepts it, value < 0, float.hex()) computed by Python; the real round trip is also executed (write, read back, compare by float.hex())',
 ]
 ASSUMPTIONS = ['metadata round-trip theorem: non-empty key-unique maps whose keys and values contain none of ; = LF CR',
                'CSV keys contain no line breaks (a quoted embedded line break is legal CSV but outside the explored inputs)']
-THEOREM = 'C15_symmetric_last_write_wins / C15_len_and_items / C15_negative_rejected / C15_metadata_roundtrip / C15_metadata_reserved_rejected'
+THEOREM = 'C15_symmetric_last_write_wins / C15_len_and_items / C15_negative_rejected / C15_metadata_roundtrip / C15_metadata_reserved_rejected / C15_csv_row_roundtrip / C15_csv_file_roundtrip / C15_rebuild / C15_container_csv_roundtrip'
 
 HEADER = '''From Coq Require Import String List ZArith.
 From Hpotk Require Import Base.Result Base.Emit Sim.Model Sim.Csv Corr.C15.
@@ -37,6 +40,14 @@ def render(case, obs):
         steps = clist([ctuple([cstr(a), cstr(b), cstr(tok), cbool(st['accepted']), crb(st['rb'])])
                        for (a, b, tok), st in zip(case['ops'], obs['steps'])])
         return f'(CHistory {clist([cstr(k) for k in case["keys"]])} {steps})'
+    if case['kind'] == 'csv_text':
+        tbl = clist([ctuple([cstr(t), ctuple([ctuple([cbool(ok), cbool(ng)]), cstr(h)])]) for t, ok, ng, h in obs['table']])
+        if 'ok' in obs:
+            r = ('(Ok (' + clist([ctuple([cstr(k), cstr(v)]) for k, v in obs['ok']['meta']]) + ', '
+                 + clist([ctuple([cstr(a), cstr(b), cstr(v)]) for a, b, v in obs['ok']['items']]) + '))')
+        else:
+            r = f'(Err {cexn(obs["err"])})'
+        return f'(CCsvFileRead {tbl} {cstr(case["text"])} {r})'
     if case['kind'] == 'csv_write':
         return f'(CCsvWrite {clist([cstr(x) for x in case["fields"]])} {cstr(obs["line"])})'
     if case['kind'] == 'csv_read':
@@ -58,6 +69,9 @@ def evaluate(chk, cases, tag='cases', shard=250):
     file_cases = [i for i in live if cases[i]['kind'] == 'csv_file']
     live = [i for i in live if cases[i]['kind'] != 'csv_file']
     terms = {i: render(cases[i], obs[i]) for i in live}
+    for i in live:
+        if cases[i]['kind'] == 'csv_text':
+            chk.count('csv_text:' + ('ok:%d-items' % min(len(obs[i]['ok']['items']), 3) if 'ok' in obs[i] else 'raises:' + obs[i]['err']))
     extra = []
     # the header line of a successfully encoded metadata map: frame/unframe agree with the model
     fr = [(i, obs[i]) for i in live if cases[i]['kind'] == 'meta_to_str' and 'ok' in obs[i]]
@@ -71,6 +85,13 @@ def evaluate(chk, cases, tag='cases', shard=250):
         for row, line in zip(o['rows'], o['data_lines']):
             fr.append((i, o))
             fterms.append(f'(CCsvWrite {clist([cstr(x) for x in row])} {cstr(line)})')
+        # the whole file text against to_csv_text
+        fr.append((i, o))
+        if o.get('description') is None:
+            fterms.append('(CCsvWrite [] "the file does not start with a comment line")')
+        else:
+            fterms.append(f'(CCsvFileWrite {cstr(o["description"])} {cstr(o["meta_str"])} '
+                          f'{clist([ctuple([cstr(a), cstr(b), cstr(v)]) for a, b, v in o["items"]])} {cstr(o["text"])})')
     allterms = [terms[i] for i in live] + fterms
     f = chk.coq_failing(HEADER, allterms, 'check_ccase', shard=shard, tag=tag)
     failing = sorted({live[j] if j < len(live) else fr[j - len(live)][0] for j in f} | set(bad))
@@ -135,7 +156,66 @@ def gen(chk):
         ops = [(rng.choice(ks), rng.choice(ks), tok(rng.choice(VALS[:2] + EXTRA_VALS[:4] + [0.1, 2.5, 1e-7, 123456789.125]))) for _ in range(rng.randint(0, 6))]
         ops = [o for o in ops if not o[2].startswith('-')]
         cases.append({'kind': 'csv_file', 'ops': ops})
+    # from_csv on whole files: well-formed ones, mutated ones (columns, blank lines, short / long rows, multi-line quoted
+    # fields, comments in odd places, missing pieces, line-ending conventions) and random soups
+    for text in csv_texts(rng, 900 if thorough else 220):
+        cases.append({'kind': 'csv_text', 'text': text})
     return cases, n_exh
+
+
+CSV_SEEDS = [
+    '#d\n#k=v\nterm_a,term_b,ic_mica\r\na,b,1.5\r\nb,a,2\r\nc,c,0.25\r\n',
+    '#d\n#k=v;created=2024-01-01-00:00:00\nterm_a,term_b,ic_mica\r\n"a,b","c""d",1e-3\r\n#x,y,3\r\n,,0\r\n',
+    '#Information content\n#m=é\nterm_a,term_b,ic_mica\r\nHP:1,HP:é,inf\r\nHP:1,HP:1,nan\r\n',
+    '#d\n#k=v\nterm_a,term_b,ic_mica\r\n',
+    '',
+]
+
+
+def csv_texts(rng, n):
+    out = list(CSV_SEEDS)
+    cells = ['a', 'b', 'HP:1', '#x', '', ' ', '1.5', '-2', '0', 'x', '1e400', '-0.0', 'nan', ' 2 ', '"q"', 'a"b', '"a,b"', '"a\nb"', 'é', 'term_a', 'ic_mica']
+    heads = ['term_a,term_b,ic_mica', 'term_b,term_a,ic_mica', 'term_a,term_b', 'term_a,term_b,ic_mica,extra', 'term_a,term_a,ic_mica', 'ic_mica,term_a,term_b',
+             '"term_a",term_b,ic_mica', 'term_a, term_b,ic_mica', '', 'x']
+    comments = ['#d', '#k=v', '#k=v;a=b', '#', '#k', '#a=b=c', '#k=v;', '# k = v ', '#é=ü']
+    good_heads = ['term_a,term_b,ic_mica', 'term_b,term_a,ic_mica', 'ic_mica,term_a,term_b', 'term_a,term_b,ic_mica,extra', '"term_a",term_b,ic_mica']
+    good_vals = ['1.5', '0', '2', '0.25', '1e-7', 'inf', ' 2 ', '1e400', '-0.0', 'nan', '3']
+    while len(out) < n:
+        eol = rng.choice(['\r\n', '\n', '\r\n', '\r'])
+        tidy = rng.random() < 0.65                       # mostly-valid files; the rest is the malformed stream
+        lines = []
+        if tidy:
+            lines.append('#' + rng.choice(['d', 'Information content', '']) + '\n')
+            lines.append(rng.choice(['#k=v', '#k=v;a=b', '#é=ü;created=2024-01-01', '# k = v ', '#a=;b=c']) + '\n')
+            lines.append(rng.choice(good_heads) + eol)
+        else:
+            for _ in range(rng.choice([0, 1, 2, 2, 3])):
+                lines.append(rng.choice(comments) + rng.choice(['\n', '\n', eol]))
+            if rng.random() < 0.9:
+                lines.append(rng.choice(heads) + eol)
+        ncol = len(lines[-1].split(',')) if lines else 3
+        for _ in range(rng.randint(0, 6)):
+            k = rng.random()
+            if k < 0.08:
+                lines.append(eol)                                           # blank line
+            elif k < 0.14:
+                lines.append(rng.choice(comments) + eol)                    # a '#' line below the column names: a data row
+            elif tidy and k < 0.92:
+                head = lines[2].rstrip('\r\n').replace('"', '').split(',')
+                row = [rng.choice(good_vals) if h.strip() == 'ic_mica' else rng.choice(cells[:9] + ['"a,b"', '"a\nb"', 'é', '"c""d"']) for h in head]
+                lines.append(','.join(row) + eol)
+            else:
+                width = rng.choice([3, 3, 3, 2, 4, 1])
+                row = [rng.choice(cells) for _ in range(width)]
+                if width == 3 and rng.random() < 0.7:
+                    row[2] = rng.choice(['1.5', '0', '2', '0.25', '1e-7', '-2', 'inf', 'x', ''])
+                lines.append(','.join(row) + eol)
+        text = ''.join(lines)
+        if rng.random() < 0.15 and text.endswith(eol):
+            text = text[:-len(eol)]                                          # no terminator on the last line
+        if '\x00' not in text:
+            out.append(text)
+    return out
 
 
 def gen_meta(rng, ok):
@@ -182,7 +262,9 @@ def run(chk):
                 'length-3/4 histories, with a full read-back after EVERY step (get for all ordered key pairs, len, sorted items) compared with the model; random '
                 'histories up to length 60 over 7 key alphabets (CURIEs, non-ASCII, commas/quotes, empty key, #-keys) and tiny/huge/zero/-0.0/inf/negative values, '
                 'each followed by a .csv and .csv.gz round trip evaluated on the implementation (similarities by float.hex, metadata); metadata_to_str on random '
-                'maps incl. ; = LF CR (exact string and header line vs the model), metadata_from_str on well- and ill-formed strings; csv.writer rows and csv.reader lines over an alphabet with commas, quotes, blanks, #, non-ASCII compared with the row-codec model, and the data lines to_csv writes compared with write_row [a; b; repr(v)]')
+                'maps incl. ; = LF CR (exact string and header line vs the model), metadata_from_str on well- and ill-formed strings; csv.writer rows and csv.reader lines over an alphabet with commas, quotes, blanks, #, non-ASCII compared with the row-codec model, and the data lines to_csv writes compared with write_row [a; b; repr(v)]; the WHOLE file to_csv writes compared with to_csv_text; from_csv on 220 (thorough: 900) whole files - 65% mostly-valid '
+                '(column permutations, extra column, quoted / multi-line / #-leading cells, blank lines, LF / CR LF / CR endings, missing last terminator), 35% malformed (missing or wrong columns, short / long rows, bad / negative numbers, '
+                'odd comment lines) - compared with the file-level model: metadata + items or the exception class')
     if failing or rtfail:
         report(chk, cases, obs, failing, rtfail)
 
